@@ -13,9 +13,9 @@ Definition snap_safe (v : obj) : bool :=
   match v with
   | L _ | Dot _ _ => quotable v                         (* written quoted *)
   | Sym s => (is_keyword s && plain_sym s) || existsb (String.eqb s) self_bound   (* [C19-snapshot-symbol-unquoted] *)
-  | Hash kvs => loadable_in v && (List.length kvs <=? 1)%nat   (* [C19-hash-values-unevaluated], [C19-hash-order-unstable] *)
+  | Hash kvs => loadable_in v && no_inst v     (* written as its load form; instances inside: snap_safe_x *)
   | Lam _ _ _ => loadable_in v
-  | Vec _ _ _ => quotable v
+  | Vec _ _ _ _ => quotable v
   | Arr _ _ _ _ | Opaque _ => false
   | _ => self_evaluating v
   end.
@@ -77,12 +77,6 @@ Fixpoint snap_safe_x (v : obj) : bool :=
   | _ => snap_safe v
   end.
 
-Fixpoint strings_eqb (a b : list string) : bool :=
-  match a, b with
-  | [], [] => true
-  | x :: a', y :: b' => (x =? y)%string && strings_eqb a' b'
-  | _, _ => false
-  end.
 (* every instance inside v is an instance of a flavor of the session, with exactly its instance variables *)
 Fixpoint insts_ok (vars : list (string * vrec)) (v : obj) : bool :=
   match v with
@@ -95,8 +89,6 @@ Fixpoint insts_ok (vars : list (string * vrec)) (v : obj) : bool :=
   | Flv n _ _ _ _ _ => match alookup vars n with Some (mkV (Some (Flv _ _ _ _ _ _)) _ false) => true | _ => false end
   | _ => true
   end.
-Fixpoint keys_nodupb (l : list string) : bool :=
-  match l with [] => true | k :: r => negb (existsb (String.eqb k) r) && keys_nodupb r end.
 Definition is_flavor_var (kv : string * vrec) : bool :=
   match snd kv with mkV (Some (Flv _ _ _ _ _ _)) _ _ => true | _ => false end.
 Definition var_ok_x (vars : list (string * vrec)) (kv : string * vrec) : bool :=
